@@ -1,6 +1,7 @@
 package main
 
 import (
+	"database/sql"
 	"flag"
 	"fmt"
 	"github.com/aws/aws-sdk-go/aws/awserr"
@@ -158,7 +159,7 @@ func schemaCmd(args []string) int {
 	fs.Parse(args)
 	setKnown(*kn)
 	st := NewStats("schema", *seed)
-	st.Rule = "table definitions built from structures: 1-5 columns with names that need and do not need quoting (spaces, '-', '.', non-ASCII, embedded quotes, keywords), optional known/unknown type words, constraint words in any order (PRIMARY KEY, NOT NULL, UNIQUE, DEFAULT/CHECK/REFERENCES/COLLATE), table-level PRIMARY KEY(...) with one or several names, duplicate names (also differing only in case); one definition in ten has a malformed text (trailing comma, NOT NULL / PRIMARY KEY written as one word) and must be rejected; the declared type of every column must be the type word written (none where none was written); s3_prefix is given in numeric-looking and quoted spellings and must be used as written; one definition in six is given a storage that cannot be opened (s3_endpoint without s3_bucket, or the first storage request failing) and must be rejected like any other; options well-formed, malformed (text, 1e3, empty, out of range), negative, missing a value, given a value they must not have, duplicated, unknown, misspelt; each structure is rendered with random quoting style, keyword case and white space and run through the real CREATE VIRTUAL TABLE; compared with the Lean decision on the structure: accept/reject, declared column names/order/key/NOT NULL (PRAGMA table_info), parsed option values (GetTable); plus: a rejected definition leaves no table registered and the bucket as it was (one bucket in four already holds two unmerged versions, so that an open would store a merge), NOT NULL and key uniqueness are enforced on an accepted one; each definition runs in a child process; non-trivial = not the plain valid definition; distinct = distinct structure"
+	st.Rule = "table definitions built from structures: 1-5 columns with names that need and do not need quoting (spaces, '-', '.', non-ASCII, embedded quotes, keywords), optional known/unknown type words, constraint words in any order (PRIMARY KEY, NOT NULL, UNIQUE, DEFAULT/CHECK/REFERENCES/COLLATE), table-level PRIMARY KEY(...) with one or several names, duplicate names (also differing only in case); one definition in ten has a malformed text (trailing comma, NOT NULL / PRIMARY KEY written as one word) and must be rejected; the declared type of every column must be the type word written (none where none was written); s3_prefix is given in numeric-looking and quoted spellings and must be used as written; one definition in six is given a storage that cannot be opened (s3_endpoint without s3_bucket, or the first storage request failing) and must be rejected like any other; options well-formed, malformed (text, 1e3, empty, out of range), negative, missing a value, given a value they must not have, duplicated, unknown, misspelt; each structure is rendered with random quoting style, keyword case and white space and run through the real CREATE VIRTUAL TABLE; compared with the Lean decision on the structure: accept/reject, declared column names/order/key/NOT NULL (PRAGMA table_info), parsed option values (GetTable); plus: a rejected definition leaves no table registered and the bucket as it was (one bucket in four, and every bucket of a definition with duplicate column names, already holds two unmerged versions, so that an open would store a merge), NOT NULL and key uniqueness are enforced on an accepted one; each definition runs in a child process; non-trivial = not the plain valid definition; distinct = distinct structure"
 	isChild, from, to := childRange()
 	var e *Emitter
 	if !isChild {
@@ -352,17 +353,22 @@ func schemaCmd(args []string) int {
 		st.Count("storage_" + storage)
 		// one bucket in four already holds two unmerged versions under the prefix: opening it stores a merge,
 		// so a definition that is rejected only after the storage was opened leaves an object behind (F61)
-		if storage == "ok" && pfxWant == "p" && r.Chance(1, 4) {
-			for n := 0; n < 2; n++ {
+		if storage == "ok" && (mutation == "duplicate column" || r.Chance(1, 4)) {
+			var pres []string
+			var pdbs []*sql.DB
+			for n := 0; n < 2; n++ { // both writers open the empty prefix before either commits
 				d := sqlh.Open()
-				pre := fmt.Sprintf("pre%s", sqlh.Uniq())
-				sqlh.Exec(d, sqlh.CreateSQL(sqlh.TableOpts{Name: pre, Bucket: b, Prefix: "p", Columns: "k primary key, v"}))
 				defer d.Close()
-				defer sqlh.Exec(d, "select 1")
-				sqlh.Exec(d, fmt.Sprintf(`insert into "%s" values(?,?)`, pre), fmt.Sprintf("zzpre%d", n), "v")
-				_ = d
+				pre := fmt.Sprintf("pre%s", sqlh.Uniq())
+				sqlh.Exec(d, sqlh.CreateSQL(sqlh.TableOpts{Name: pre, Bucket: b, Prefix: strings.ReplaceAll(pfxWant, "'", "''"), Columns: "k primary key, v"}))
+				pres, pdbs = append(pres, pre), append(pdbs, d)
 			}
-			st.Count("bucket_with_two_unmerged_versions")
+			for n := range pres {
+				sqlh.Exec(pdbs[n], fmt.Sprintf(`insert into "%s" values(?,?)`, pres[n]), fmt.Sprintf("zzpre%d", n), "v")
+			}
+			if len(store.Keys(pfxWant+"/s3db-rows/root/current/")) == 2 {
+				st.Count("bucket_with_two_unmerged_versions")
+			}
 		}
 		before := strings.Join(store.Keys(""), " ")
 		rendered := renderItems(r, items)
